@@ -1,7 +1,7 @@
-import Secp.Proofs.WrapperTies
+import Secp.Proofs.WrapperTiesP
 import Secp.Proofs.Lawful
-import Secp.Proofs.AddSub
-import Secp.Proofs.Bits64
+import Secp.Proofs.AddSubP
+import Secp.Proofs.Bits64P
 import Secp.Proofs.FieldP
 import Secp.Hand.Field
 import Secp.Proofs.CurveBridge
